@@ -240,4 +240,20 @@ CHECKS = {
                         "values that JSON cannot carry (pointer to zero Time, pointer to empty FieldsV1, sub-second times, invalid UTF-8) are outside the domain",
                         "the API server behind the hijack client is client-go's fake object tracker"],
     },
+    "C06": {
+        "level": "exploration",
+        "rule": "case = world with 0-3 claim templates (one named like a pod suffix, optional own labels), set names incl. ones ending in -<digits>, "
+                "selector with matchLabels or expressions only, several service names, and a <= 30-op history of scale-out / scale-in at slot k / "
+                "slot removal (re-scale-out over the same ordinal) / kubelet steps, in which a quarter of the reconciles carry a single claim fault "
+                "(claim create rejected, claim create applied but reported as timeout, claim cache lookup error, claim missing from the cache). "
+                "Oracle per pod create: name/hostname = S-i, subdomain = governing service, pod-name label, revision label naming a stored revision "
+                "whose template the pod is built from, exactly one controller reference to the set by UID, a volume per template bound to claim "
+                "T-S-i; that claim exists in the API before the pod create, in the set's namespace, with the selector's matchLabels; no pod create "
+                "after a failed claim lookup/creation of that pod in the same reconcile and such a reconcile reports an error; over the history no "
+                "update/patch/delete on claims, no claim disappears, and an ordinal that comes back gets the same claim objects (UIDs). "
+                "Non-trivial = a claim fault was injected and hit, or an ordinal was created a second time with claim templates; distinct = world+history",
+        "legs": [{"test": "TestC06", "quick": {"checks": 3000}, "thorough": {"checks": 400000, "shards": 16}}],
+        "floors": {"claim-failure-injected-and-hit": 0.05, "ordinal-created-again-with-claims": 0.05},
+        "assumptions": COMMON_ASSUMPTIONS,
+    },
 }
